@@ -74,7 +74,7 @@ function mkKeys() {
     if (k === "y" || k === "z") c = Symbol(k);
     else if (k === "i0") c = "0"; else if (k === "i1") c = "1"; else if (k === "i2") c = "2";
     else if (k === "k") {
-      c = m === "str" ? "vk_a" : m === "sym" ? Symbol("k") : m === "idx" ? "0" : m === "idx7" ? "7" :
+      c = m === "str" ? "vk_a" : m === "sym" ? Symbol("k") : m === "idx" ? "0" : m === "idx7" ? "7" : m === "num7" ? 7 :
           m === "big" ? "4294967295" : m === "neg0" ? "-0" : m === "frac" ? "1.5" : m === "wk" ? Symbol.toStringTag :
           m === "tmpl" ? TMPLKEY[CFG.kind] :
           m === "long" ? "vk_a_rather_long_property_name_to_defeat_small_string_paths" : m === "uni" ? "ключ" : undefined;
@@ -114,7 +114,7 @@ function ourKeys(o) {
       if (!d) return ["own key without descriptor"];
       if (d.enumerable) { if (enumKeys[ei++] !== all[i]) return ["Object.keys inconsistent with descriptors"]; }
     }
-    for (var a in KEY) if (KEY[a] === all[i]) r.push(a);
+    for (var a in KEY) if (typeof KEY[a] === "symbol" || typeof all[i] === "symbol" ? KEY[a] === all[i] : String(KEY[a]) === all[i]) r.push(a);
   }
   if (ei !== enumKeys.length) return ["Object.keys has extra keys"];
   return r;
@@ -229,7 +229,7 @@ function step(l) {
     var fr = Object.isFrozen(o), se = Object.isSealed(o), ofr = true, ose = true, mfr = !Object.isExtensible(o), mse = mfr;
     Reflect.ownKeys(o).forEach(function(q) {
       var d = Object.getOwnPropertyDescriptor(o, q), mine = false;
-      for (var a in KEY) if (KEY[a] === q) mine = true;
+      for (var a in KEY) if (typeof KEY[a] === "symbol" || typeof q === "symbol" ? KEY[a] === q : String(KEY[a]) === q) mine = true;
       var f = !d.configurable && (!("value" in d) || !d.writable), s = !d.configurable;
       if (mine) { mfr = mfr && f; mse = mse && s; } else { ofr = ofr && f; ose = ose && s; }
     });
